@@ -898,3 +898,76 @@ def rule_K_SENTINEL_SET(ctx, repo):
                  'the setter of keymap.sentinel %s: a marker the caller configured (None, False, 0 are in use as markers) is replaced or dropped, so flat keys lose the '
                  'separator between positional and keyword arguments and two different calls of a function taking *args and **kwds share a key' % what,
                  '%s:%d' % (m.rel, (rebinds or odd_tests or [fn])[0].lineno))
+
+
+def rule_K_CHAIN(ctx, repo):
+    """K-STATE (a chain keeps the options of its last keymap).  `a + b` is a copy of b that first runs a: whatever was configured on b (typed, flat, sentinel,
+    algorithm ...) is what the chain uses - that is how chains are written (`keymap() + hashmap(algorithm='md5', typed=True)`).  `__add__` therefore sets nothing
+    on the result but the two chain links; copying a's options over b's silently drops typed=True / a sentinel / flat=False given on the second operand, and
+    distinct calls share a key."""
+    m, classes = keymap_classes(repo)
+    n = 0
+    for cname, ci in sorted(classes.items()):
+        fi = ci.own_methods.get('__add__') if hasattr(ci, 'own_methods') else ci.methods.get('__add__')
+        if fi is None:
+            continue
+        n += 1
+        fn = fi.node
+        selfn = fn.args.args[0].arg
+        bad = []
+        for x in ast.walk(fn):
+            if isinstance(x, (ast.Assign, ast.AugAssign)):
+                tgs = x.targets if isinstance(x, ast.Assign) else [x.target]
+                for t in tgs:
+                    for e in (t.elts if isinstance(t, ast.Tuple) else [t]):
+                        if isinstance(e, ast.Attribute) and isinstance(e.value, ast.Name) and e.value.id != selfn \
+                                and e.attr not in ('__inner__', '__outer__', '__chain__', 'inner', 'outer'):
+                            bad.append((x, e.attr))
+            if isinstance(x, ast.Call) and isinstance(x.func, ast.Name) and x.func.id == 'setattr':
+                bad.append((x, 'setattr'))
+        ctx.ob('K-STATE', '%s.__add__ sets only the chain links on the new keymap' % cname, not bad)
+        for x, attr in bad[:1]:
+            ctx.fail('K-STATE', fi.qual, '__add__ overwrites %s of the chained keymap' % attr,
+                     '%s.__add__ assigns `%s` on the result: the options configured on the second operand of `a + b` (typed, flat, sentinel) are replaced, so a chain '
+                     'written as keymap() + hashmap(typed=True) stops telling 1 from 1.0, or loses the separator between positional and keyword arguments'
+                     % (cname, attr), '%s:%d' % (m.rel, x.lineno))
+    if n < 1:
+        raise AnalysisError('anchor vanished: keymap.__add__')
+
+
+def rule_K_FORWARD(ctx, repo):
+    """K-HASH (options reach the encoders as configured, or not at all).  The keymaps hand their configuration to crypto.hash / string / pickle.  An option the
+    user did not set must take the *encoder's* default: forwarding `strict=self._config.get('strict')` passes None where the encoder's default is True, and
+    the encoders give None a meaning of its own (string(): "drop what the codec cannot encode") - distinct arguments then encode to the same key."""
+    mk = repo.mod('keymaps')
+    mc = repo.mod('crypto')
+    n = 0
+    for node in ast.walk(mk.tree):
+        if not (isinstance(node, ast.Call) and isinstance(node.func, ast.Name) and node.func.id in mc.functions and mk.imports.get(node.func.id, '').endswith('crypto.' + node.func.id)):
+            continue
+        callee = mc.functions[node.func.id].node
+        pos = callee.args.posonlyargs + callee.args.args
+        dmap = {}
+        for a, d in zip(pos[len(pos) - len(callee.args.defaults):], callee.args.defaults):
+            dmap[a.arg] = d
+        for a, d in zip(callee.args.kwonlyargs, callee.args.kw_defaults):
+            if d is not None:
+                dmap[a.arg] = d
+        for k in node.keywords:
+            if k.arg is None:
+                continue
+            n += 1
+            v = k.value
+            soft = isinstance(v, ast.Call) and isinstance(v.func, ast.Attribute) and v.func.attr == 'get' and (
+                len(v.args) == 1 or (len(v.args) == 2 and isinstance(v.args[1], ast.Constant) and v.args[1].value is None))
+            dflt = dmap.get(k.arg)
+            ok = not (soft and isinstance(dflt, ast.Constant) and dflt.value is not None)
+            ctx.ob('K-HASH', '%s:%d %s(%s=...) keeps the encoder\'s default when the option is unset' % (mk.rel, node.lineno, node.func.id, k.arg), ok)
+            if not ok:
+                ctx.fail('K-HASH', '%s:%d' % (mk.rel, node.lineno), '%s=%s forwarded to crypto.%s (default %s)' % (k.arg, unparse(v)[:30], node.func.id, unparse(dflt)),
+                         'the keymap calls crypto.%s(..., %s=%s): when the option was never configured this passes None, but the encoder\'s own default is %s and it treats '
+                         'None differently (string(): characters the codec cannot encode are dropped instead of raising) - arguments that differ only in such characters get '
+                         'one key, and a cached call is answered with another call\'s result' % (node.func.id, k.arg, unparse(v)[:40], unparse(dflt)),
+                         '%s:%d' % (mk.rel, node.lineno))
+    if n < 3:
+        raise AnalysisError('K-HASH (forwarded options): fewer than three keyword arguments passed from keymaps.py to the crypto encoders')
